@@ -15,7 +15,7 @@ open(f,'w').write(t)
 PY
 export GOFLAGS=-mod=mod GOPROXY=off GOSUMDB=off GOTOOLCHAIN=local
 if ! go build ./... ; then git checkout -- .; echo "mutant does not build"; exit 1; fi
-if [ "${RUNTESTS:-0}" = 1 ]; then go test -vet=off -count=1 ./... 2>&1 | grep -v "no test files" | grep -v "^ok" || true; fi
+if [ "${RUNTESTS:-0}" = 1 ]; then go test -vet=off -count=1 ./... 2>&1 | grep -E "^(--- FAIL|FAIL|panic)" | head -5 || true; fi
 git diff > "$V/mutants/$name.patch"
 git checkout -- .
 "$V/tools/kf.py" mutant "$name" "mutants/$name.patch" "$props" "$expect"
